@@ -125,7 +125,6 @@ func catch(c *corr.Ctx, input any, what string, fn func()) (ok bool) {
 		if p := recover(); p != nil {
 			ok = false
 			if c != nil {
-				c.Dist("frame-panic")
 				viol(c, input, "no input makes the library panic", "frame-panic", fmt.Sprintf("%s panicked: %v\n%s", what, p, debug.Stack()))
 			}
 		}
@@ -188,7 +187,6 @@ func checkMarshal(c *corr.Ctx, name string, elems []any) bool {
 		in := marshalInput(name, []any{e})
 		bad := func(detail string) {
 			good = false
-			c.Dist("frame-marshal-size")
 			viol(c, in, "MarshalSize, MarshalTo and Marshal agree (len(Marshal()) == MarshalSize(), nothing truncated, nothing beyond)",
 				"frame-marshal-size", fmt.Sprintf("element %d (%s): %s", i, trunc(fmtElemSafe(e)), detail))
 		}
